@@ -14,6 +14,7 @@ import (
 	"github.com/crate-crypto/go-ipa/banderwagon"
 	"github.com/crate-crypto/go-ipa/ipa"
 
+	"verif/mon"
 	"verif/ref"
 )
 
@@ -208,14 +209,28 @@ var (
 // GetEnv builds (once) the library and reference configurations.
 func GetEnv() *Env {
 	envOnce.Do(func() {
-		conf, err := ipa.NewIPASettings()
-		if err != nil {
-			panic(fmt.Sprintf("NewIPASettings: %v", err))
+		mk := func() {
+			conf, err := ipa.NewIPASettings()
+			if err != nil {
+				panic(fmt.Sprintf("NewIPASettings: %v", err))
+			}
+			env = &Env{Conf: conf}
 		}
-		env = &Env{Conf: conf, Ref: ref.NewConfig()}
+		// creating the configuration is itself a monitored call: a hang or deadlock in it must be attributed
+		if envCtx != nil {
+			envCtx.Setup("startup/NewIPASettings", mk)
+		} else {
+			mk()
+		}
+		env.Ref = ref.NewConfig()
 	})
 	return env
 }
+
+var envCtx *mon.Ctx
+
+// SetCtx tells the package which monitor context the process runs under (set once by the child's main).
+func SetCtx(c *mon.Ctx) { envCtx = c }
 
 // Pool is a list of reference points P_i = k_i*G with known k_i.
 type Pool struct {
@@ -361,4 +376,90 @@ func sortedKeys[V any](m map[string]V) []string {
 	}
 	sort.Strings(ks)
 	return ks
+}
+
+// nestReader delivers data in chunks and, before its at-th Read call, runs fn from inside the Read method: the reader
+// handed to the library is itself a user of the library (a tee / audit reader, a reader that multiplexes several
+// streams), so that a second complete call overlaps the first one on one goroutine.
+type nestReader struct {
+	data  []byte
+	pos   int
+	chunk int
+	calls int
+	at    int
+	fn    func()
+}
+
+func (r *nestReader) Read(p []byte) (int, error) {
+	if r.calls == r.at && r.fn != nil {
+		f := r.fn
+		r.fn = nil
+		f()
+	}
+	r.calls++
+	if r.pos >= len(r.data) {
+		return 0, io.EOF
+	}
+	n := r.chunk
+	if n <= 0 || n > len(p) {
+		n = len(p)
+	}
+	if n > len(r.data)-r.pos {
+		n = len(r.data) - r.pos
+	}
+	copy(p, r.data[r.pos:r.pos+n])
+	r.pos += n
+	return n, nil
+}
+
+// nestWriter collects what is written to it and, before its at-th Write call, runs fn from inside the Write method.
+type nestWriter struct {
+	buf   []byte
+	calls int
+	at    int
+	fn    func()
+}
+
+func (w *nestWriter) Write(p []byte) (int, error) {
+	if w.calls == w.at && w.fn != nil {
+		f := w.fn
+		w.fn = nil
+		f()
+	}
+	w.calls++
+	w.buf = append(w.buf, p...)
+	return len(p), nil
+}
+
+// ColdPrelude runs, before the process creates its first configuration, the calls a program may well make first:
+// kind 1 asks for a few basis points (fewer than a configuration needs), kind 2 for more than a configuration needs,
+// kind 3 for two different short prefixes; kind 0 does nothing. Every returned point is compared with the reference's
+// hash-and-increment sequence and then overwritten (the slice is the caller's). Returns a description or a failure text.
+func ColdPrelude(kind int, rng *rand.Rand) (desc string, failure string) {
+	var asks []uint64
+	switch kind % 4 {
+	case 0:
+		return "none", ""
+	case 1:
+		asks = []uint64{uint64(1 + rng.Intn(255))}
+	case 2:
+		asks = []uint64{uint64(257 + rng.Intn(60))}
+	case 3:
+		asks = []uint64{uint64(1 + rng.Intn(8)), uint64(9 + rng.Intn(200)), uint64(1 + rng.Intn(8))}
+	}
+	desc = fmt.Sprintf("GenerateRandomPoints%v before the first NewIPASettings", asks)
+	for _, k := range asks {
+		pts := ipa.GenerateRandomPoints(k)
+		want := ref.CRS(int(k))
+		if len(pts) != int(k) {
+			return desc, fmt.Sprintf("GenerateRandomPoints(%d) returned %d points", k, len(pts))
+		}
+		for i := range pts {
+			if g, ok := ElemToRef(&pts[i]); !ok || !ref.ClassEqual(g, ref.FromAffine(want[i])) {
+				return desc, fmt.Sprintf("GenerateRandomPoints(%d)[%d] is not the %d-th point of the hash-and-increment sequence", k, i, i)
+			}
+			pts[i].SetIdentity()
+		}
+	}
+	return desc, ""
 }
